@@ -479,6 +479,133 @@ fn part_f32_long_default_axis(out: &mut JobOut) {
     }
 }
 
+/// Recording builders for integer element types (signed and unsigned): every order pattern of a
+/// short axis; the builder may only see strictly increasing axes and build() never panics.
+macro_rules! rec_int {
+    ($modname:ident, $t:ty) => {
+        mod $modname {
+            use super::*;
+            pub struct Rec {
+                pub seen: Arc<Mutex<Vec<(Vec<$t>, Vec<$t>)>>>,
+            }
+            pub struct Strat;
+            impl<Sd, Sx, D> Interp1DStrategyBuilder<Sd, Sx, D> for Rec
+            where
+                Sd: Data<Elem = $t>,
+                Sx: Data<Elem = $t>,
+                D: Dimension + RemoveAxis,
+            {
+                const MINIMUM_DATA_LENGHT: usize = 2;
+                type FinishedStrat = Strat;
+                fn build<Sx2>(self, x: &ArrayBase<Sx2, Ix1>, _data: &ArrayBase<Sd, D>) -> Result<Strat, BuilderError>
+                where
+                    Sx2: Data<Elem = $t>,
+                {
+                    self.seen.lock().unwrap().push((x.to_vec(), vec![]));
+                    Ok(Strat)
+                }
+            }
+            impl<Sd, Sx, D> Interp1DStrategy<Sd, Sx, D> for Strat
+            where
+                Sd: Data<Elem = $t>,
+                Sx: Data<Elem = $t>,
+                D: Dimension + RemoveAxis,
+            {
+                fn interp_into(&self, _ip: &Interp1D<Sd, Sx, D, Self>, _target: ArrayViewMut<$t, D::Smaller>, _x: $t) -> Result<(), InterpolateError> {
+                    Ok(())
+                }
+            }
+            impl<Sd, Sx, Sy, D> Interp2DStrategyBuilder<Sd, Sx, Sy, D> for Rec
+            where
+                Sd: Data<Elem = $t>,
+                Sx: Data<Elem = $t>,
+                Sy: Data<Elem = $t>,
+                D: Dimension + RemoveAxis,
+                D::Smaller: RemoveAxis,
+            {
+                const MINIMUM_DATA_LENGHT: usize = 2;
+                type FinishedStrat = Strat;
+                fn build(self, x: &ArrayBase<Sx, Ix1>, y: &ArrayBase<Sy, Ix1>, _data: &ArrayBase<Sd, D>) -> Result<Strat, BuilderError> {
+                    self.seen.lock().unwrap().push((x.to_vec(), y.to_vec()));
+                    Ok(Strat)
+                }
+            }
+            impl<Sd, Sx, Sy, D> Interp2DStrategy<Sd, Sx, Sy, D> for Strat
+            where
+                Sd: Data<Elem = $t>,
+                Sx: Data<Elem = $t>,
+                Sy: Data<Elem = $t>,
+                D: Dimension + RemoveAxis,
+                D::Smaller: RemoveAxis,
+            {
+                fn interp_into(&self, _ip: &Interp2D<Sd, Sx, Sy, D, Self>, _target: ArrayViewMut<'_, $t, <D::Smaller as Dimension>::Smaller>, _x: $t, _y: $t) -> Result<(), InterpolateError> {
+                    Ok(())
+                }
+            }
+            pub fn run(out: &mut JobOut) {
+                let tn = stringify!($t);
+                let base: [$t; 5] = [1, 3, 6, 10, 15];
+                for n in 2..=5usize {
+                    let inc: Vec<$t> = base[..n].to_vec();
+                    let mut pats: Vec<(String, Vec<$t>)> = vec![("increasing".into(), inc.clone())];
+                    for p in 0..n - 1 {
+                        let mut t = inc.clone();
+                        t[p + 1] = t[p];
+                        pats.push((format!("tie@{p}"), t));
+                        let mut d = inc.clone();
+                        d.swap(p, p + 1);
+                        pats.push((format!("swap@{p}"), d));
+                    }
+                    let mut dec = inc.clone();
+                    dec.reverse();
+                    pats.push(("decreasing".into(), dec));
+                    let mut top = inc.clone();
+                    top[n - 1] = <$t>::MAX;
+                    top[0] = <$t>::MIN;
+                    pats.push(("MIN..MAX".into(), top.clone()));
+                    top.reverse();
+                    pats.push(("MAX..MIN".into(), top));
+                    for (name, x) in pats {
+                        for form in 0..3 {
+                            let seen = Arc::new(Mutex::new(vec![]));
+                            let s2 = seen.clone();
+                            let xa = Array1::from(x.clone());
+                            let good = Array1::from(inc.clone());
+                            let r = match form {
+                                0 => catch(|| Interp1DBuilder::new(Array1::<$t>::from_elem(n, 1)).x(xa.clone()).strategy(Rec { seen: s2 }).build().map(|_| ())),
+                                1 => catch(|| Interp2DBuilder::new(ndarray::Array2::<$t>::from_elem((n, n), 1)).x(xa.clone()).y(good.clone()).strategy(Rec { seen: s2 }).build().map(|_| ())),
+                                _ => catch(|| Interp2DBuilder::new(ndarray::Array2::<$t>::from_elem((n, n), 1)).x(good.clone()).y(xa.clone()).strategy(Rec { seen: s2 }).build().map(|_| ())),
+                            };
+                            out.evals += 1;
+                            out.transitions += 1;
+                            out.nontrivial += 1;
+                            let key = format!("build-int:{tn}:n{n}:{name}:form{form}");
+                            let inc_ok = |v: &Vec<$t>| v.windows(2).all(|w| w[0] < w[1]);
+                            for (sx, sy) in seen.lock().unwrap().iter() {
+                                if !inc_ok(sx) || !inc_ok(sy) {
+                                    out.violate(format!("{key}:invoked"), format!("the strategy builder was invoked with the {tn} axes {sx:?} / {sy:?}, which are not strictly increasing"), Json::str(&format!("{x:?}")));
+                                }
+                            }
+                            out.outcome(format!("int-build:{}", match &r { Ok(Ok(())) => "Ok", Ok(Err(_)) => "Err", Err(_) => "panic" }));
+                            if let Err(p) = &r {
+                                out.violate(format!("{key}:panic"), format!("building with a custom strategy over the {tn} axis {x:?} panicked: {p}"), Json::str(&format!("{x:?}")));
+                            }
+                            if matches!(r, Ok(Ok(()))) != inc_ok(&x) {
+                                out.violate(format!("{key}:verdict"), format!("build() over the {tn} axis {x:?} returned {:?}", r.as_ref().map(|r| r.as_ref().map_err(|e| e.to_string()))), Json::str(&format!("{x:?}")));
+                            }
+                        }
+                    }
+                }
+            }
+        }
+    };
+}
+rec_int!(rec_u8, u8);
+rec_int!(rec_u32, u32);
+rec_int!(rec_u64, u64);
+rec_int!(rec_i32, i32);
+rec_int!(rec_i64, i64);
+
 // ------------------------------------------------------------------------------------------
 // part 2: what does interp_into of the strategy see? (every entry point, every fault index)
 
@@ -809,8 +936,9 @@ fn body(ctx: &Ctx) -> (Summary, Meta) {
         Calls,
         Access,
         F32Long,
+        IntTypes,
     }
-    let parts = [Part::Build(0), Part::Build(1), Part::Build(2), Part::Build(3), Part::Build(4), Part::Calls, Part::Access, Part::F32Long];
+    let parts = [Part::Build(0), Part::Build(1), Part::Build(2), Part::Build(3), Part::Build(4), Part::Calls, Part::Access, Part::F32Long, Part::IntTypes];
     let sum = run_jobs(ctx, "custom-strategies", &parts, |p| format!("{p:?}"), |p| {
         let mut out = JobOut::default();
         match p {
@@ -818,14 +946,21 @@ fn body(ctx: &Ctx) -> (Summary, Meta) {
             Part::Calls => part_calls(&mut out),
             Part::Access => part_accessors(&mut out),
             Part::F32Long => part_f32_long_default_axis(&mut out),
+            Part::IntTypes => {
+                rec_u8::run(&mut out);
+                rec_u32::run(&mut out);
+                rec_u64::run(&mut out);
+                rec_i32::run(&mut out);
+                rec_i64::run(&mut out);
+            }
         }
         out.sample = Some(Json::str(&format!("{p:?}")));
         out
     });
     let _ = (Ix0::default(), ctx.quick());
     let meta = Meta {
-        rule: "recording strategy builders with declared minimum 0..4 for Interp1D and Interp2D: (1) on the decision-table inputs (data ranks static/dynamic incl. rank 0, lengths 0..min+2, axis default / n-1 / n / n+1 with tie, swap, NaN at every position; 2-D x-factors x y-factors) the strategy's build may only be entered when axes are strictly increasing, have the data's length and the length reaches the declared minimum, and its error must reach the caller unchanged; (2) for 18 static/dynamic instantiations x data shapes x query shapes (ranks 0..3, empty) x {interp, interp_into, interp_array, interp_array_into, interp_scalar} the strategy must see exactly the query values (bit patterns incl. NaN, -0, inf, 1e300) in logical order with a target of shape data.shape[k..]; a failure is injected at every call index of every batch and must stop the batch and reach the caller verbatim; (3) index_point(i) for every i and is_in_range on the range-end alphabet; (4) the default index axis of 2^24+2 f32 values (not strictly increasing after the cast) must not reach the strategy builder. Query batches contain consecutive equal values (incl. NaN, NaN and 0.0, -0.0). Non-trivial = a case in which the strategy is entered or an accessor is compared.".into(),
-        bounds: format!("8 parts (5 declared minima + calls + accessors + long f32 default axis); tier {}", ctx.tier.name()),
+        rule: "recording strategy builders with declared minimum 0..4 for Interp1D and Interp2D: (1) on the decision-table inputs (data ranks static/dynamic incl. rank 0, lengths 0..min+2, axis default / n-1 / n / n+1 with tie, swap, NaN at every position; 2-D x-factors x y-factors) the strategy's build may only be entered when axes are strictly increasing, have the data's length and the length reaches the declared minimum, and its error must reach the caller unchanged; (2) for 18 static/dynamic instantiations x data shapes x query shapes (ranks 0..3, empty) x {interp, interp_into, interp_array, interp_array_into, interp_scalar} the strategy must see exactly the query values (bit patterns incl. NaN, -0, inf, 1e300) in logical order with a target of shape data.shape[k..]; a failure is injected at every call index of every batch and must stop the batch and reach the caller verbatim; (3) index_point(i) for every i and is_in_range on the range-end alphabet; (4) the default index axis of 2^24+2 f32 values (not strictly increasing after the cast) must not reach the strategy builder; (5) u8 / u32 / u64 / i32 / i64 axes with every order pattern (tie / swap at every position, decreasing, MIN..MAX, MAX..MIN) as x of Interp1D and as x or y of Interp2D: the builder only sees strictly increasing axes, build() returns Ok iff the axis is, and never panics. Query batches contain consecutive equal values (incl. NaN, NaN and 0.0, -0.0). Non-trivial = a case in which the strategy is entered or an accessor is compared.".into(),
+        bounds: format!("9 parts (5 declared minima + calls + accessors + long f32 default axis + integer types); tier {}", ctx.tier.name()),
         assumptions: vec!["queries are handed to the strategy in the logical order of the query array".into()],
         extra: vec![],
     };
